@@ -60,3 +60,41 @@ Theorem C04_drain_fifo_exactly_once_back : forall l fuel rn g, length l <= fuel 
      Glob (rev (map (fun e => Res (e_pay e)) l) ++ g_tr g) (g_cb g) (g_plan g) (g_val g) (g_up g) (g_bad g)).
 Proof. exact back_drain_fifo. Qed.
 Print Assumptions C04_drain_fifo_exactly_once_back.
+
+(* ---- the queue as a whole: refinement of an abstract run-to-completion queue ---- *)
+From Msm Require Import Lemmas_Fifo.
+From Coq Require Import Permutation.
+
+(* back / back11: with a dispatcher that records the event it is given and raises further events (what behaviours do
+   with process_event while the machine is processing) - any function `raises`, so any number of events raised to any
+   depth - draining dispatches in exactly the order of the abstract queue "take the oldest, append what it raises";
+   every stored occurrence is dispatched exactly once and the queue ends empty (fuel: any bound within which the abstract
+   queue runs empty) *)
+Theorem C04_back_queue_refines_fifo : forall raises fuel q rn g,
+  msgq rn = ev_queue q -> snd (fifo raises fuel q) = [] ->
+  drain_msgq (stubd raises) fuel rn g =
+    (Some tt, set_msgq rn [],
+     Glob (rev (map (fun e => Res (e_pay e)) (fst (fifo raises fuel q))) ++ g_tr g) (g_cb g) (g_plan g) (g_val g) (g_up g) (g_bad g)).
+Proof. exact back_drain_refines_fifo. Qed.
+Print Assumptions C04_back_queue_refines_fifo.
+
+(* the abstract queue loses and duplicates nothing: stored + raised = dispatched + still stored *)
+Theorem C04_fifo_conserves : forall raises fuel q,
+  let '(d, r) := fifo raises fuel q in Permutation (q ++ flat_map raises d) (d ++ r).
+Proof. exact fifo_conserves. Qed.
+Print Assumptions C04_fifo_conserves.
+
+(* backmp11: the event pool (marking, removal of dispatched cells, restart from the front, sequence counter) is the same
+   abstract queue for n dispatches, provided no stored occurrence stays for a whole turn of the 16-bit sequence counter
+   (ages_ok; at that boundary finding F6 applies, see C05) and no active state defers *)
+Theorem C04_mp11_pool_refines_fifo : forall cf parents contained mc children raises,
+  (forall rn ety, defers_active mc children rn ety = false) ->
+  forall n q rn g p,
+  (0 <= curseq rn < MW)%Z -> msgq rn = pool_items (curseq rn) q -> ages_ok n q -> (Z.of_nat n + 2 <= MW)%Z ->
+  snd (mfifo raises n q) = [] ->
+  pool_loop cf parents contained mc children (mstubd raises) (2 * n + 1) 0 p 0 rn g =
+    (Some (p + length (fst (mfifo raises n q))),
+     set_curseq (set_msgq rn []) ((curseq rn + Z.of_nat (length (fst (mfifo raises n q)))) mod MW)%Z,
+     Glob (rev (map (fun e => Res (e_pay e)) (fst (mfifo raises n q))) ++ g_tr g) (g_cb g) (g_plan g) (g_val g) (g_up g) (g_bad g)).
+Proof. exact mp11_pool_refines_fifo. Qed.
+Print Assumptions C04_mp11_pool_refines_fifo.
